@@ -145,12 +145,12 @@ def check_case(ctx: Ctx, c: dict):
         ctx.count("more:" + str((desc.get("f") or {}).get("more")))
         ctx.count("outcome:" + ("error" if model == "err" else "chunks=%s" % (nchunks if nchunks < 4 else "4+")))
         ctx.count("payload-len:" + ("0" if not data else "1-9" if len(data) < 10 else "10-99" if len(data) < 100 else "100-999" if len(data) < 1000 else "1000+"))
-        c["_nchunks"] = nchunks
+        ctx.last_nchunks = nchunks
         # F
         if inline:
             r = d.ask(f"spec_checksend {n} {mx} {1 if raised else 0} {hx(stream)} {tok}")
             if r != "ok":
-                ctx.violation("inline transmission breaks the chunking property: " + r, _clean(c),
+                ctx.violation("inline transmission breaks the chunking property: " + r, c,
                               {"reason": r, "max": c["max"], "escape_sizes": _sizes(d, stream), "data_len": len(data)}, key="c05-" + r)
         else:
             # other media: a single unsplit command (only C06's well-formedness applies)
@@ -159,7 +159,7 @@ def check_case(ctx: Ctx, c: dict):
             else:
                 r = d.ask(f"spec_checkcmd {n} {hx(stream)} {tok}")
                 if r != "ok":
-                    ctx.violation("non-inline transmission is not one well-formed command", _clean(c), {"reason": r}, key="c05-other-" + r)
+                    ctx.violation("non-inline transmission is not one well-formed command", c, {"reason": r}, key="c05-other-" + r)
     elif k == "split":
         desc = c["cmd"]
         data = data_bytes(desc.get("data"))
@@ -177,13 +177,9 @@ def check_case(ctx: Ctx, c: dict):
         ctx.eq("split", c, impl, model)
         if kinds[0] != "TransmitCommand" or any(x != "MoreDataCommand" for x in kinds[1:]):
             ctx.mismatch("split command types", c, kinds, "TransmitCommand, MoreDataCommand*")
-        c["_nchunks"] = len(impl)
+        ctx.last_nchunks = len(impl)
     else:
         raise ValueError(k)
-
-
-def _clean(c):
-    return {k: v for k, v in c.items() if not k.startswith("_")}
 
 
 def _sizes(d, stream):
@@ -312,8 +308,7 @@ def run(ctx: Ctx):
             ctx.count("skipped-over-budget")
             continue
         check_case(ctx, c)
-        nch = c.pop("_nchunks", 1)
-        ctx.case(c, nontrivial=(nch != 1))
+        ctx.case(c, nontrivial=(getattr(ctx, "last_nchunks", 1) != 1))
     ctx.assumptions += ["payload streams are seekable and return min(n, remaining) bytes per read",
                         "integer header fields are natural numbers"]
     global _TMP
